@@ -68,7 +68,22 @@ def faultWriter (k : Option Nat) (j : Nat) (e : Bool) : Writer Nat Unit :=
 
 def showWR (r : WR Nat Unit) : String :=
   let e := if r.panic then "PANIC" else if r.err.isSome then "FAULT" else "nil"
-  s!"{r.n} | {e} | {hex (accepted r.log)} | {r.log.length}"
+  s!"{r.n} | {e} | {hex (accepted r.log)} | {r.log.length} | {if r.err.isSome then 1 else 0}"
+
+/-- C15's demand on `WriteTo`, judged on what the real code did (`n | err | accepted bytes | Write calls | a Write failed`)
+whatever the number and the boundaries of its Write calls: the count returned is what the writer accepted, which is a
+prefix of the encoding; a writer's failure is returned; with no failure the whole encoding was written. -/
+def wtVerdict (m : Message) (go : String) : String :=
+  match go.splitOn " | " with
+  | [n, e, acc, _, f] =>
+    let a := unhex acc
+    if n.toNat? != some a.length then "bad:count-is-not-what-the-writer-accepted"
+    else if !(a.isPrefixOf m.encode) then "bad:not-a-prefix-of-the-encoding"
+    else if f == "1" && e != "FAULT" then "bad:the-writer's-error-was-not-returned"
+    else if f == "0" && e != "nil" then "bad:error-without-a-failing-write"
+    else if f == "0" && a != m.encode then "bad:encoding-incomplete-though-no-write-failed"
+    else "ok"
+  | _ => "bad-observation"
 
 /-- `WT <msg> <k|-> <j> <e>` -/
 def wt (args : List String) : String × String :=
@@ -76,7 +91,10 @@ def wt (args : List String) : String × String :=
   | [ms, k, j, e] =>
     let m := build (parseMsg ms)
     let w := faultWriter k.toNat? (j.toNat?.getD 0) (boolOf e)
-    (showWR (m.writeTo w 0), showWR (writeAll w { n := 0, err := none, st := 0, log := [] } m.writes))
+    -- (the model's own run through the specification's `writeAll` must agree with it too: `spec-run-differs` otherwise)
+    let viaSpec := showWR (writeAll w { n := 0, err := none, st := 0, log := [] } m.writes)
+    let mr := showWR (m.writeTo w 0)
+    (mr, if mr != viaSpec then "bad:spec-run-differs" else wtVerdict m (goField args))
   | _ => ("bad-args", "bad-args")
 
 def showField (f : MField) : String := if f.set then "s:" ++ hex f.value else "u"
